@@ -1,5 +1,5 @@
-"""Real-socket reproduction: a control peer that stops reading while its commands keep producing replies fills every
-buffer; Server.close() then never returns (wait_closed() waits for the closing transport to flush)."""
+"""Server.close() with a client that floods commands and never reads the replies (C12, fix 7f0a147).
+Run: /venv/bin/python repro/real_close_flood.py  -> prints "close HANGS" before the fix, "close returned" after."""
 import asyncio, aioftp, socket, time
 async def main():
     server = aioftp.Server(path_io_factory=aioftp.MemoryPathIO)
@@ -9,19 +9,25 @@ async def main():
     loop = asyncio.get_running_loop()
     await asyncio.sleep(0.1)
     line = b"X" * 90 + b"\r\n"
+    conn = None
     sent = 0
-    for i in range(400):
-        try:
-            await asyncio.wait_for(loop.sock_sendall(s, line * 200), 0.5)   # never reads the replies
-            sent += 200
-        except asyncio.TimeoutError:
-            break
-    await asyncio.sleep(0.5)
     t0 = time.time()
+    while time.time() - t0 < 90:
+        try:
+            await asyncio.wait_for(loop.sock_sendall(s, line * 200), 0.5); sent += 200
+        except asyncio.TimeoutError:
+            pass
+        conn = next(iter(server.connections.values()), None)
+        if conn and conn.command_connection.writer.transport.get_write_buffer_size() > 0:
+            break
+    print("sent", sent, "after", time.time() - t0)
+    tr = conn.command_connection.writer.transport
+    print("write buffer", tr.get_write_buffer_size(), "active_count", server.server._active_count)
+    t0=time.time()
     try:
-        await asyncio.wait_for(server.close(), 3.0)
-        print(f"sent {sent} commands; Server.close() returned after {time.time() - t0:.2f}s")
+        await asyncio.wait_for(server.close(), 3.0); print("close returned", time.time()-t0)
     except asyncio.TimeoutError:
-        print(f"sent {sent} commands; Server.close() did not return within 3 s (peer connected, not reading)")
+        print("close HANGS")
+    print("active_count after", server.server._active_count, "closing", tr.is_closing(), "buf", tr.get_write_buffer_size())
     s.close()
 asyncio.run(main())
